@@ -70,7 +70,9 @@ def run(ctx):
     for eop in ("real", "zero", "missing-warn"):
         ds = dates if eop == "real" else dates[:max(2, len(dates) // 3)]
         for d in ds:
-            payloads.append({"repo": REPO, "eop": eop, "dates": [d], "walks": pairs + triples, "kinematics": True})
+            # thorough: every pair at every date; the 4 352 triples are spread over the dates (a different third of them at each)
+            tw = triples if not thorough else rnd.sample(triples, len(triples) // 3)
+            payloads.append({"repo": REPO, "eop": eop, "dates": [d], "walks": pairs + tw, "kinematics": True, "histories": d is ds[0]})
     for res in ctx.harness_parallel("frames_laws.py", payloads, procs=16, timeout=3000):
         ctx.absorb(res)
     ctx.exhaustive = False
